@@ -542,7 +542,9 @@ fn exec_program<F: Fl + SerdeBound>(case: &Value, skip_roundtrip: bool) -> Vec<V
             let (ob, vb) = breg.observe();
             let mut rv = json!({"r": i + 1, "bag": rle(sa), "bagb": rle(sb), "ca": ca, "cb": cb,
                                 "obs": o1, "obs2": o2, "batch": ob});
-            if tol { rv["obsv"] = Value::Array(v1); rv["batchv"] = Value::Array(vb); }
+            // the values themselves are logged where the renderings differ (and in tolerance mode): the property asks for
+            // equality with the batch result UP TO ROUNDING, which the validator then decides on the numbers
+            if tol || o1 != ob { rv["obsv"] = Value::Array(v1); rv["batchv"] = Value::Array(vb); }
             regv.push(rv);
         }
         evs.push(json!({"op": "accum.step", "fl": fl, "ty": F::tyname(), "k": k + 1, "first": k == 0,
